@@ -86,6 +86,16 @@ def earlier_connections():
     for i, b in enumerate(bodies):
         out.append(dict(cfg=simnet.default_cfg(), steps=[("data", 10, b), ("eof", 10)], app={2: [("text", b"x", True)]} if i % 2 else {},
                         keys=[b"\x09\x09\x09\x09"] * 4, key16=scen.KEY16))
+    # connections that negotiated permessage-deflate (never used as the earlier life of the SAME object: that object's own
+    # settings decide what it offers): complete compressed messages; EOF inside a fragmented compressed message
+    import zlib
+    hz = ref6455.handshake_response(scen.ACCEPT, extra=b"Sec-WebSocket-Extensions: permessage-deflate\r\n")
+    co = zlib.compressobj(9, zlib.DEFLATED, -15)
+    z1 = (co.compress(b"hello hello hello") + co.flush(zlib.Z_SYNC_FLUSH))[:-4]
+    z2 = (co.compress(b"\x00\x01\x02 more of the same hello hello") + co.flush(zlib.Z_SYNC_FLUSH))[:-4]
+    for body in (hz + E(1, z1, rsv=4) + E(2, z2, rsv=4) + E(9, b"p"), hz + E(1, z1, rsv=4) + E(2, z2[:5], rsv=4, fin=0) + E(0, z2[5:9], fin=0)):
+        out.append(dict(cfg=simnet.default_cfg(), steps=[("data", 10, body), ("eof", 10)], app={2: [("text", b"compress me compress me", True)]},
+                        keys=[b"\x09\x09\x09\x09"] * 4, key16=scen.KEY16, ws_kwargs=dict(compress=True)))
     return out
 
 
@@ -105,7 +115,11 @@ def with_history(p):
         _EARLIER = earlier_connections()
     q = dict(p)
     # residue 0: another object's connection earlier in the process; residue 1: an earlier connection of the SAME object
-    q["previously" if h % 8 == 0 else "previously_same"] = [_EARLIER[(h // 8) % len(_EARLIER)]]
+    if h % 8 == 0:
+        q["previously"] = [_EARLIER[(h // 8) % len(_EARLIER)]]
+    else:
+        plain = [e for e in _EARLIER if "ws_kwargs" not in e]
+        q["previously_same"] = [plain[(h // 8) % len(plain)]]
     return q
 
 
